@@ -63,13 +63,20 @@ def plan(tier, seed):
     out = []
     for name, pairs, menu, costs, rooted in slices(tier):
         out.extend(L.split_plan(name, pairs, menu, 150, {"costs": costs, "rooted": rooted}))
+    # operation histories: one input object per shape pair (ancestors named / unnamed), its leaf assignment, syntenies and
+    # costs updated in place from one case to the next; every call is checked against the oracle of the current state
+    core = [c for c in spaces.CV_CORE if spaces.coherent(c)]
+    o2 = spaces.ordered_syntenies(2)
+    for k, (osh, ssh) in enumerate(spaces.shape_pairs(3, 2, min_obj=2) if tier == "quick" else spaces.shape_pairs(3, 3, min_obj=2)):
+        out.append({"slice": "session:" + ("O3x2x2" if tier == "quick" else "O3x3x2"), "osh": osh, "ssh": ssh, "menu": o2,
+                    "costs": [core[0], core[4]], "rooted": False, "session": True, "unnamed": bool(k % 2)})
     return out
 
 
-def check_case(algo, O, S, leafmap, leafsyn, costs, policy, rootsyn=None, orc=None):
+def check_case(algo, O, S, leafmap, leafsyn, costs, policy, rootsyn=None, orc=None, session=None):
     """None, or (subcheck, detail, trace)"""
     best, keys = orc if orc is not None else L.oracle(algo, O, S, leafmap, leafsyn, costs, rootsyn)
-    r = L.run_labelled(algo, O, S, leafmap, leafsyn, costs, policy, rootsyn)
+    r = L.run_labelled(algo, O, S, leafmap, leafsyn, costs, policy, rootsyn, session=session)
     if r.error:
         return ("exception", r.error, r.trace)
     if best == dtl.INF:
@@ -115,6 +122,7 @@ def run_shard(shard, tier, seed):
     viols = []
     samples = []
     counters = {"solver_runs": 0, "inconsistent_inputs": 0}
+    sess = A.Session(O, S, labelled=True, unordered=False, unnamed=shard.get("unnamed", False)) if shard.get("session") else None
     for leafmap, leafsyn in L.labelled_inputs(O, S, shard["menu"], shard.get("part")):
         roots = [None]
         if shard["rooted"]:
@@ -133,21 +141,35 @@ def run_shard(shard, tier, seed):
                     for policy in ("ALL", "ANY"):
                         n_eval += 1
                         counters["solver_runs"] += 1
-                        bad = check_case(algo, O, S, leafmap, leafsyn, costs, policy, rootsyn, orc)
+                        bad = check_case(algo, O, S, leafmap, leafsyn, costs, policy, rootsyn, orc, session=sess)
                         if bad:
                             vtotal += 1
                             if len(viols) < 8 and not any(v["subcheck"] == bad[0] and v["case"]["algorithm"] == algo
                                                           for v in viols):
-                                viols.append({"property": PROP, "subcheck": bad[0],
-                                              "case": L.case_json(osh, ssh, leafmap, leafsyn, costs, algo, policy, rootsyn),
-                                              "detail": bad[1], "traceback": bad[2]})
+                                case = L.case_json(osh, ssh, leafmap, leafsyn, costs, algo, policy, rootsyn)
+                                detail = bad[1]
+                                if sess is not None:
+                                    case["session_shard"] = A.pack(shard)
+                                    detail = f"call #{sess.calls} on the shared input object (state updated in place): " + detail
+                                viols.append({"property": PROP, "subcheck": ("session_" if sess else "") + bad[0],
+                                              "case": case, "detail": detail, "traceback": bad[2]})
         if not samples:
             samples.append(L.case_json(osh, ssh, leafmap, leafsyn, shard["costs"][0], "ext_spfs", "ALL", roots[0]))
     return {"evaluations": n_eval, "inputs": n_inputs, "nontrivial": nt, "samples": samples,
             "violations": viols, "violations_total": vtotal, "counters": counters}
 
 
+def replay_session(mod, v):
+    """a violation found in a session is replayed by running the (deterministic) session again"""
+    res = mod.run_shard(A.unpack(v["case"]["session_shard"]), "quick", 0)
+    hits = [x for x in res["violations"] if x["subcheck"] == v.get("subcheck")] or res["violations"]
+    return {"violated": bool(hits), "detail": (hits[0]["subcheck"] + ": " + hits[0]["detail"]) if hits else None}
+
+
 def replay(v):
+    if v["case"].get("session_shard"):
+        import sys as _sys
+        return replay_session(_sys.modules[__name__], v)
     case = v["case"]
     osh, ssh, O, S, leafmap, leafsyn, costs, rootsyn = L.case_from_json(case)
     bad = check_case(case["algorithm"], O, S, leafmap, leafsyn, costs, case["policy"], rootsyn)
